@@ -1019,9 +1019,11 @@ package server
 //@ func Server.cmdConfigGet
 //@   frame-by-effects
 //@   entry-assume s != nil && msg != nil && len(msg.Args) > 0 && s.config != nil
+//@   ensures [json-reply] result1 == nil && msg.OutputType == JSON ==> jsonDoc(result0)
 //@ func Server.cmdConfigSet
 //@   frame-by-effects
 //@   entry-assume s != nil && msg != nil && len(msg.Args) > 0 && s.config != nil
+//@   ensures [json-reply] result1 == nil && msg.OutputType == JSON ==> jsonDoc(result0)
 //@ func Server.cmdDelHook
 //@   frame-by-effects
 //@   entry-assume s != nil && msg != nil && len(msg.Args) > 0 && s.config != nil
@@ -1049,12 +1051,15 @@ package server
 //@ func Server.cmdREADONLY
 //@   frame-by-effects
 //@   entry-assume s != nil && msg != nil && len(msg.Args) > 0 && s.config != nil
+//@   ensures [json-reply] result1 == nil && msg.OutputType == JSON ==> jsonDoc(result0)
 //@ func Server.cmdReplConf
 //@   frame-by-effects
 //@   entry-assume s != nil && msg != nil && len(msg.Args) > 0 && s.config != nil
+//@   ensures [json-reply] result1 == nil && msg.OutputType == JSON ==> jsonDoc(result0)
 //@ func Server.cmdSTATS
 //@   frame-by-effects
 //@   entry-assume s != nil && msg != nil && len(msg.Args) > 0 && s.config != nil
+//@   ensures [json-reply] result1 == nil && msg.OutputType == JSON ==> jsonDoc(result0)
 //@ func Server.cmdScanArgs
 //@   frame-by-effects
 //@   entry-assume s != nil && s.config != nil
@@ -1082,12 +1087,15 @@ package server
 //@ func Server.cmdINFO
 //@   frame-by-effects
 //@   entry-assume s != nil && msg != nil && len(msg.Args) > 0 && s.config != nil
+//@   ensures [json-reply] result1 == nil && msg.OutputType == JSON ==> jsonDoc(result0)
 //@ func Server.cmdSERVER
 //@   frame-by-effects
 //@   entry-assume s != nil && msg != nil && len(msg.Args) > 0 && s.config != nil
+//@   ensures [json-reply] result1 == nil && msg.OutputType == JSON ==> jsonDoc(result0)
 //@ func Server.cmdScriptFlush
 //@   frame-by-effects
 //@   entry-assume s != nil && msg != nil && len(msg.Args) > 0 && s.config != nil
+//@   ensures [json-reply] result1 == nil && msg.OutputType == JSON ==> jsonDoc(result0)
 
 // ---- EXPIRE, PERSIST, TTL, EXISTS against the map model (C01; deadlines also C14) ----------------------
 // kcol = the collection stored under the key when the command starts; kobj = the object stored under the id then.
